@@ -363,7 +363,7 @@ class Sym:
 
     def __pow__(self, o):
         np = _np()
-        if isinstance(o, (int, np.integer)) and 0 <= int(o) <= 4:
+        if isinstance(o, (int, np.integer)) and 0 <= int(o) <= 12:
             n = int(o)
             if n == 0:
                 return 1
@@ -373,7 +373,7 @@ class Sym:
             return Sym(z)
         if isinstance(o, (float, np.floating)) and float(o) == 0.5:
             return self.sqrt()
-        if isinstance(o, (float, np.floating)) and float(o).is_integer() and 0 <= o <= 4:
+        if isinstance(o, (float, np.floating)) and float(o).is_integer() and 0 <= o <= 12:
             return self.__pow__(int(o))
         raise Inconclusive(f"unsupported power {o!r}")
 
